@@ -80,11 +80,15 @@ def repeatedAssocOnRight (prog : NList) : Bool :=
     | .infix t _ (some r) => sameAssociativeOperator t r
     | _ => false) (fun _ => false) prog
 
-/-- "number-literal-before-dot": `(1).a`, `(.5).a` are printed `1.a`, `.5.a`, which the lexer reads as other numbers -/
+def isNumberLit : Option Node → Bool
+  | some (.intLit _) | some (.floatLit _) => true
+  | _ => false
+
+/-- "number-literal-next-to-dot": `(1).a`, `(.5).a`, `a.(1e3)` are printed `1.a`, `.5.a`, `a.1e3`, which the lexer
+reads as other numbers -/
 def numberBeforeDot (prog : NList) : Bool :=
   anyProg (fun _ n => match n with
-    | .index t (some (.intLit _)) _ => t.type = .DOT
-    | .index t (some (.floatLit _)) _ => t.type = .DOT
+    | .index t l i => t.type = .DOT && (isNumberLit l || isNumberLit i)
     | _ => false) (fun _ => false) prog
 
 /-- "parameter-not-identifier": `func(1, >)` — the parser takes any token as a parameter name; printing it back
@@ -137,7 +141,7 @@ def normalClasses (prog : NList) : List String :=
   (if fakeClosedComment prog then ["unclosed-block-comment-ending-in-star-slash"] else []) ++
   (if stringWithAbfv prog then ["string-with-abfv-control-byte"] else []) ++
   (if repeatedAssocOnRight prog then ["repeated-associative-operator-on-the-right"] else []) ++
-  (if numberBeforeDot prog then ["number-literal-before-dot"] else []) ++
+  (if numberBeforeDot prog then ["number-literal-next-to-dot"] else []) ++
   (if nonIdentParam prog then ["illegal-token-as-parameter"] else []) ++
   (if lineCommentThenSameLine prog then ["line-comment-then-same-line-comment"] else [])
 
